@@ -980,12 +980,16 @@ class VF:
         self.dead = False
         # pass 2: over loop-head symbols
         self.store = dict(s0)
-        for k in sorted(changed, key=repr):
-            self.store = self.store
+        # a changed place subsumes its changed sub-places
+        changed = set(k for k in changed if not any((k[0], k[1][:n]) in changed for n in range(len(k[1]))))
+        inits = {}
+        for k in changed:
             try:
-                cur = self.read(Place(*k))
+                inits[k] = self.read(Place(*k))
             except Exception:
-                cur = None
+                inits[k] = None
+        for k in sorted(changed, key=repr):
+            cur = inits[k]
             ls.init[k] = cur
             if isinstance(cur, (Ref, Clos)):
                 continue
@@ -1287,6 +1291,10 @@ class VF:
         self.events.append(Event(op=opname, key=key, args=targs, res=res, pc=tuple(self.pc), loops=tuple(self.loop_stack),
                                  sp=node.get('sp') if node else None, owner=self.owner(), fn=fn,
                                  refs=[(a.place, a.mut) if isinstance(a, Ref) else None for a in args]))
+        if node is not None and str(node.get('ty', '')).startswith('&mut ') and any(isinstance(a, Ref) for a in args):
+            # an accessor handing out `&mut` into its receiver: model the referent as an abstract place
+            recv = [a for a in args if isinstance(a, Ref)][0]
+            return Ref(Place(('ext', '%s(%s)' % (opname.split('::')[-1], keyrepr(recv.place))), ()), True)
         return res
 
     def log(self, op, args, node, res=None, **kw):
